@@ -151,6 +151,49 @@ def pick_shape(rng, shape, lo_h=1, lo_w=1):
 
 
 P_SPOT = 0.25  # share of the generated npz inputs whose stored configuration is a SpotConfig
+# storage types an .npz can carry for its fields (every other loader returns float64).  The values written are the generated
+# float64 values cast to the type (floats) or their 64-fold, rounded (integers: still pairwise distinct, far below 2^31).
+DTYPES = ["f8", "f4", "i4", "i8", ">f8", ">f4", "f2", "u4", "i2"]
+DTYPE_POOL = ["f4", "f4", "f4", "i4", "i8", ">f8", ">f4", "f2", "u4"]
+P_DTYPE = 0.12  # share of the npz inputs of convert / filter stored in another type than float64 (stack: its own class)
+
+
+def np_dtype(name):
+    return np.dtype(name)
+
+
+def cast_values(g, dt):
+    """the generated float64 grid as an array of storage type `dt`"""
+    dt = np.dtype(dt)
+    a = np.array(g, dtype=np.float64)
+    if dt.kind in "iu":
+        with np.errstate(all="ignore"):
+            a = np.where(np.isnan(a), 0.0, a)
+            a = np.rint(a * 64.0) if dt.itemsize >= 4 else np.rint(a) % 30000
+        return a.astype(dt)
+    with np.errstate(all="ignore"):
+        return a.astype(dt)
+
+
+def field_dtypes(spec):
+    """per element: the storage type of an npz input (`dtype`: one name for all fields, or one per field)"""
+    d = spec.get("dtype") or "f8"
+    names = [d] * len(spec["elements"]) if isinstance(d, str) else list(d)
+    if len(names) != len(spec["elements"]):
+        names = (names + ["f8"] * len(spec["elements"]))[:len(spec["elements"])]
+    return names
+
+
+def representable(v, dt):
+    """does the storage type hold the float64 value `v` exactly (NaN: does it have a NaN)"""
+    dt = np.dtype(dt)
+    with np.errstate(all="ignore"), warnings.catch_warnings():
+        warnings.simplefilter("ignore")
+        back = np.array(v, dtype=np.float64).astype(dt).astype(np.float64)
+    if v != v:
+        return bool(back != back)
+    return bool(back == v)
+
 SPOT_CONFIGS = [[25.0, 40.0], [100.0, 100.0], [5.0, 2.5], [12.5, 50.0], [1.0, 3.0], [10.0, 20.0]]
 
 
@@ -186,9 +229,11 @@ class NpzFmt(Fmt):
         from pewlib.config import SpotConfig
         from pewlib.io import npz
 
-        data = np.empty((spec["h"], spec["w"]), dtype=[(e, np.float64) for e in spec["elements"]])
-        for e, g in zip(spec["elements"], vals):
-            data[e] = np.array(g, dtype=np.float64).reshape(spec["h"], spec["w"])
+        dts = field_dtypes(spec)
+        data = np.empty((spec["h"], spec["w"]), dtype=[(e, np.dtype(d)) for e, d in zip(spec["elements"], dts)],
+                        order="F" if spec.get("order") == "F" else "C")
+        for e, g, d in zip(spec["elements"], vals, dts):
+            data[e] = cast_values(g, d).reshape(spec["h"], spec["w"])
         config = SpotConfig(*spec["config"][:2]) if spec.get("cfg", "raster") == "spot" else Config(*spec["config"])
         laser = Laser(data, config=config, info={"Name": spec["stem"]})
         with path.open("wb") as fp:  # a file object: numpy appends '.npz' to other names
@@ -741,11 +786,52 @@ class C20(Prop):
             for k, s_ in enumerate(inputs):
                 if s_["fmt"] == "npz":
                     make_spot(rng, s_) if k in force["spot"] else make_raster(s_)
-        # ---- stack: the same input named twice on the command line (both copies must appear, each at its own position)
-        dup = force["dup"] if "dup" in force else (cmd == "stack" and n >= 2 and rng.random() < 0.08)
-        if dup and cmd == "stack" and n >= 2:
+        # ---- storage classes of npz inputs: field types other than float64 (one per file or one per field) and Fortran-ordered
+        # arrays.  force["dtypes"] = list of type names (or per-field lists), one per input, None = float64.  stack: a fifth of the
+        # stacks over npz files mixes types (np.concatenate promotes; narrower first and narrower later both arise)
+        npz_at = [k for k, s_ in enumerate(inputs) if s_["fmt"] == "npz"]
+        if "dtypes" in force:
+            for k, d in enumerate(force["dtypes"]):
+                if d is not None and k < len(inputs) and inputs[k]["fmt"] == "npz":
+                    inputs[k]["dtype"] = d
+        elif cmd == "stack":
+            if npz_at and n >= 2 and rng.random() < 0.22:
+                pool = rng.choice([["f8", "f4"], ["f8", "f4", ">f8"], ["f8", "i4"], ["f4", "i8", "f8"], ["f4", "i4"], ["f2", "f4", "f8"],
+                                   ["f8", "f4", "i4", "i8", ">f4", "u4"], ["f4", ">f4"], ["i4", "i8"]])
+                for k in npz_at:
+                    inputs[k]["dtype"] = rng.choice(pool)
+                if len(npz_at) == len(inputs) and len({inputs[k]["dtype"] for k in npz_at}) == 1:  # all npz and one type: change one
+                    k = rng.choice(npz_at)
+                    inputs[k]["dtype"] = rng.choice([d for d in pool if d != inputs[k]["dtype"]] or ["f8" if pool[0] != "f8" else "f4"])
+                if rng.random() < 0.25:  # one type per field
+                    for k in npz_at:
+                        inputs[k]["dtype"] = [rng.choice(pool) for _ in inputs[k]["elements"]]
+            elif npz_at and rng.random() < 0.08:  # one narrow type throughout
+                d = rng.choice(["f4", "f4", ">f8", "i4", "f2"])
+                for k in npz_at:
+                    inputs[k]["dtype"] = d
+        else:
+            for k in npz_at:
+                if rng.random() < P_DTYPE and not (large and inputs[k]["h"] * inputs[k]["w"] > 4096):
+                    pool = DTYPE_POOL if cmd == "convert" else ["f4", "f4", ">f8", ">f4", "f2", "f4", "i4"]
+                    inputs[k]["dtype"] = rng.choice(pool)
+                    if len(inputs[k]["elements"]) > 1 and rng.random() < 0.3:
+                        inputs[k]["dtype"] = [rng.choice(["f8"] + pool) for _ in inputs[k]["elements"]]
+        for k in npz_at:
+            if rng.random() < 0.12:
+                inputs[k]["order"] = "F"
+        # ---- the same input named twice (or three times) on the command line.  stack: both copies must appear, each at its own
+        # position; convert / filter: every copy is processed on its own (the derived outputs coincide: the same content is written
+        # again) - in particular the second copy must NOT see what the run did to the first (filter: data on which a second pass
+        # of the filter changes something, see `dup_filter` below)
+        dup = force["dup"] if "dup" in force else (n >= 2 and rng.random() < (0.08 if cmd == "stack" else 0.12))
+        if dup and n >= 2:
             i, j = rng.sample(range(n), 2)
+            if cmd == "filter" and not large and inputs[i]["fmt"] in ("npz", "txt") and inputs[i]["h"] * inputs[i]["w"] < 16:
+                inputs[i] = {**inputs[i], "h": rng.choice([4, 5, 7]), "w": rng.choice([4, 6, 8])}  # room for the filter to act
             inputs[j] = dict(inputs[i])
+            if n >= 3 and rng.random() < 0.25:
+                inputs[rng.choice([x for x in range(n) if x not in (i, j)])] = dict(inputs[i])
         # ---- dispatch classes of `load`: one input of about a seventh of the command lines is not an ordinary one
         # force["odd"]: False | True | {"fmt": "perkin" | "emptydir"} | {"fields": {...}} (replace / patch input 0)
         odd = force["odd"] if "odd" in force else (rng.random() < (0.16 if cmd != "stack" else 0.06) and not large and not eqcount)
@@ -807,6 +893,9 @@ class C20(Prop):
             case["elements"] = self.pick_elements(rng, all_els)
             case["filter"] = {"type": rng.choice(["mean", "median", None]), "size": rng.choice([3, 3, 5, 7, None]),
                               "threshold": rng.choice([0.0, 0.5, 1.0, 1.5, 3.0, None])}
+            if dup:  # a second pass over the filtered image must change something: low thresholds, small windows
+                case["filter"] = {"type": rng.choice(["mean", "median", None]), "size": rng.choice([3, 3, 5]),
+                                  "threshold": rng.choice([0.5, 0.75, 1.0, 1.0, 1.5])}
             if large:  # both filters, every odd window 3..7, thresholds that leave pixels on both sides of the decision
                 case["filter"] = {"type": force.get("ftype", rng.choice(["mean", "median", "median", None])),
                                   "size": force.get("size", rng.choice([3, 5, 7, None])),
@@ -881,6 +970,30 @@ class C20(Prop):
             case = self.build(rng, "quick", "stack", n=n, okind="file", format=".npz", mode="inproc", stack_fmt=["npz", "txt"][j % 2],
                               eqcount=False, odd=False, dup=True, missing_input=False, calibrate=False)
             yield {**case, "orientation": orient}
+        # convert / filter: one input named twice (three times); every copy is processed on its own
+        dup_cases = [("filter", 2, "npz", "dir", ".npz", "inproc"), ("filter", 2, "npz", "omitted", ".npz", "subproc"),
+                     ("filter", 2, "txt", "dir", ".csv", "inproc"), ("filter", 3, "npz", "omitted", ".npz", "inproc"),
+                     ("filter", 3, "txt", "dir", ".npz", "inproc"), ("filter", 4, "npz", "dir", ".npz", "inproc"),
+                     ("convert", 2, "npz", "dir", ".npz", "inproc"), ("convert", 3, "npz", "omitted", ".csv", "inproc")]
+        for j, (cmd, n, fmt, okind, fmt_out, mode) in enumerate(dup_cases):
+            rng = random.Random(f"C20-targeted-dup-{cmd}-{j}")
+            yield self.build(rng, "quick", cmd, n=n, okind=okind, format=fmt_out, mode=mode, fmt=fmt, eqcount=False, large=False,
+                             odd=False, dup=True, missing_input=False, **({"elements": None} if j % 2 == 0 else {}))
+        # stack: inputs whose fields are stored in different types, narrower first and narrower later, both orientations;
+        # one type per field; a Fortran-ordered array
+        type_cases = [(["f4", "f8"], "vertical", -1.0), (["f8", "f4"], "horizontal", "nan"), (["f4", "f8"], "horizontal", "nan"),
+                      (["i4", "f8"], "vertical", 0.0), (["f8", "i4"], "vertical", -1.0), (["i4", "f4"], "horizontal", 1e6),
+                      (["f4", "f8", "f4"], "vertical", 2.5), ([">f8", "f4", "f8"], "horizontal", "default"),
+                      (["i4", "i8"], "vertical", -1.0), (["f2", "f4", "f8"], "vertical", "nan"),
+                      ([["f4", "f8", "f4"], ["f8", "f4", "f4"]], "vertical", "nan"), (["f4", "f4"], "horizontal", 2.5)]
+        for j, (dts, orient, pad) in enumerate(type_cases):
+            rng = random.Random(f"C20-targeted-types-{j}")
+            case = self.build(rng, "quick", "stack", n=len(dts), okind="file", format=[".npz", ".npz", ".csv"][j % 3],
+                              mode="subproc" if j == 2 else "inproc", stack_fmt="npz", eqcount=False, odd=False, dup=False,
+                              missing_input=False, calibrate=False, dtypes=dts)
+            if j % 4 == 1:
+                case["inputs"][0]["order"] = "F"
+            yield {**case, "orientation": orient, "pad": pad}
         # the dispatch classes of `load`: every odd suffix / layout once (convert, one input), the Agilent method variants,
         # PerkinElmer directories (with and without a csv beside the .xl files, every parameters.conf variant), an
         # unsupported directory; a failing load AFTER a good one (nothing may be written); `--calibrate`
@@ -1144,23 +1257,37 @@ class C20(Prop):
         default = Config()
         undetermined = False
         changed_by_filter = False
+        second_pass_changes = False
         table = []
         if cmd == "filter":
             f = case["filter"]
             func = filters.rolling_median if f["type"] == "median" else filters.rolling_mean
             size, thr = (5 if f["size"] is None else f["size"]), (3.0 if f["threshold"] is None else f["threshold"])
             seen = set()
-            for arrays in datas:
+            repeated = {rel for rel in run_rels if run_rels.count(rel) > 1}
+            for rel, arrays in zip(run_rels, datas):
                 for data in arrays:
                     for n in data.dtype.names:
                         src_t = [t for row in grid_tokens(data[n]) for t in row]
-                        key = (data.shape, tuple(src_t))
+                        key = (data.shape, tuple(src_t), data.dtype[n].str)
                         if key in seen:
                             continue
                         seen.add(key)
                         try:
                             with np.errstate(all="ignore"):
-                                dst_t = [t for row in grid_tokens(func(np.array(data[n]), size, thr)) for t in row]
+                                res = func(np.array(data[n]), size, thr)
+                                dst_t = [t for row in grid_tokens(res) for t in row]
+                                # the command line stores the result in the field of the loaded image: a result the field's
+                                # storage type cannot hold (the mean filter of an integer image) is outside what the property
+                                # can mean by "exactly the library filter" -> recorded, never a verdict
+                                back = np.asarray(res).astype(data.dtype[n]).astype(np.float64)
+                                if not np.array_equal(back, np.asarray(res, dtype=np.float64), equal_nan=True):
+                                    undetermined = True
+                                    feats.add("filter:result-not-representable-in-field-type (recorded only)")
+                                if rel in repeated:
+                                    again = [t for row in grid_tokens(func(np.array(res), size, thr)) for t in row]
+                                    if again != dst_t:
+                                        second_pass_changes = True
                         except Exception:
                             undetermined = True  # the library filter itself rejects these arguments: nothing to compare with
                             dst_t = src_t
@@ -1177,6 +1304,49 @@ class C20(Prop):
         else:
             req["orientation"] = case["orientation"] or "vertical"
             req["pad"] = NAN_TOK if case["pad"] in ("default", "nan") else ctok(case["pad"])
+        # ---- storage types of the loaded images (from the arrays the loaders returned, not from the case description)
+        loaded = [arrays[0] if arrays else None for arrays in datas]
+        types = [None if a is None else [a.dtype[n] for n in a.dtype.names] for a in loaded]
+        f8 = np.dtype(np.float64)
+        for a, ts in zip(loaded, types):
+            if a is None:
+                continue
+            for t in ts:
+                if t != f8:
+                    feats.add("in:field-type:" + t.str.lstrip("<|=") )
+            if len(set(ts)) > 1:
+                feats.add("in:field-types-differ-within-image")
+            if a.ndim == 2 and min(a.shape) > 1 and a.flags["F_CONTIGUOUS"] and not a.flags["C_CONTIGUOUS"]:
+                feats.add("in:fortran-ordered")
+        other_types = any(t != f8 for ts in types if ts for t in ts)
+        if other_types and case["format"] == ".vtk":
+            # io.vtk.save declares Float64 and writes the bytes of the array as stored: not an image of other storage types
+            # (the property text does not name .vtk) -> recorded, never a verdict
+            undetermined = True
+            feats.add("vtk-of-non-float64-image (recorded only)")
+        if cmd == "stack" and all(ts is not None for ts in types) and types:
+            padv = math.nan if case["pad"] in ("default", "nan") else float(case["pad"])
+            if not all(representable(padv, t) for ts in types for t in ts):
+                # np.pad holds the pad value in the storage type of each input (NaN or 2.5 in an integer image): the property's
+                # "the pad value everywhere else" cannot be met there -> recorded, never a verdict
+                undetermined = True
+                feats.add("stack:pad-not-representable-in-an-input-type (recorded only)")
+            if len(types) > 1 and len({len(ts) for ts in types}) == 1:
+                per_field = list(zip(*types))
+                if any(len(set(col)) > 1 for col in per_field):
+                    feats.add("stack:field-types-differ")
+                    try:
+                        wide = [np.result_type(*col) for col in per_field]
+                        if any(w != col[0] for w, col in zip(wide, per_field)):
+                            feats.add("stack:first-input-narrower-than-a-later-one")
+                        if any(w != c for w, col in zip(wide, per_field) for c in col[1:]):
+                            feats.add("stack:later-input-narrower-than-the-result")
+                        if any(col[0].kind in "iu" and w.kind == "f" for w, col in zip(wide, per_field)):
+                            feats.add("stack:integer-first-then-float")
+                    except TypeError:
+                        pass
+                elif other_types:
+                    feats.add("stack:one-narrow-type-throughout")
         rep = ctx.driver.call("c20.run", **req)
 
         def spacing_of(cfg):
@@ -1316,6 +1486,10 @@ class C20(Prop):
                 feats.add("spot-config:with-vtk-spacing")
         if any(f.get("kind") == "npz" and f["config"][0] == "spot" for f in spec_["files"]):
             feats.add("out:spot-config")
+        if "same-input-twice" in feats:
+            feats.add("same-input-twice:" + cmd)
+            if cmd == "filter" and second_pass_changes and spec_["status"] == "ok" and spec_["files"]:
+                feats.add("same-input-twice:filter-second-pass-would-change")
         if cmd == "filter":
             feats.add("filter:" + (case["filter"]["type"] or "default"))
             if changed_by_filter:
